@@ -172,8 +172,12 @@ def run_case(case: dict, out: dict, names: dict = None) -> None:
                 got, want = getattr(inner, N(f)), term_value(t, case)
                 if got != want:
                     add("field_from_wrong_source", f"Dst.n.{f} = {got!r}, the linking rules give {t['k']}:{t['level']}.{t['n']} = {want!r}")
-    if inspect.signature(conv) != sig or conv.__name__ != N("convert_it"):
-        add("stub_signature_not_preserved", f"{inspect.signature(conv)} / {conv.__name__}")
+    try:
+        got_sig = inspect.signature(conv)
+    except Exception as e:  # noqa: BLE001
+        got_sig = f"inspect.signature raises {type(e).__name__}: {str(e)[:80]}"
+    if got_sig != sig or conv.__name__ != N("convert_it"):
+        add("stub_signature_not_preserved", f"{got_sig} / {conv.__name__}")
     # the same pair asked from the module-level retort with another recipe, then with this one again: each call obeys its own recipe
     if not case["PS"] and case["top"]:
         from adaptix import P
@@ -297,6 +301,13 @@ HOSTILE_NAME_TABLES = [
      "Src": "accessor_0", "Dst": "constant_0", "convert_it": "func_1", "the_func": "constant_0", "_nonliteral": True},
     {"_table": 7, "a": "a", "b": "b", "c": "c", "n": "n", "p": "p", "srcmodel": "src", "SrcNested": "Same", "DstNested": "Other",
      "Src": "Same", "Dst": "Other", "convert_it": "convert_Same_to_Other", "the_func": "coerce_Same_to_Other", "_nonliteral": True},
+    # the function is named like a constant of the generated module itself / like the one dunder name `def` refuses
+    {"_table": 8, "a": "a", "b": "b", "c": "c", "n": "n", "p": "p", "srcmodel": "src", "SrcNested": "SN", "DstNested": "DN", "Src": "S", "Dst": "D",
+     "convert_it": "_update_wrapper"},
+    {"_table": 9, "a": "a", "b": "b", "c": "c", "n": "n", "p": "p", "srcmodel": "src", "SrcNested": "SN", "DstNested": "DN", "Src": "S", "Dst": "D",
+     "convert_it": "_closure_signature"},
+    {"_table": 10, "a": "a", "b": "b", "c": "c", "n": "n", "p": "p", "srcmodel": "src", "SrcNested": "SN", "DstNested": "DN", "Src": "__debug__", "Dst": "D",
+     "convert_it": "__debug__"},
     {"_table": 2, "a": "переменная", "b": "ñ", "c": "δ", "n": "变量", "p": "π", "srcmodel": "источник", "SrcNested": "Ünï", "DstNested": "Ωmega",
      "Src": "Модель", "Dst": "Цель", "convert_it": "преобразовать"},
 ]
